@@ -11,7 +11,12 @@ from baize.datastructures import (
     QueryParams,
     UploadFile,
 )
-from baize.exceptions import MalformedJSON, MalformedMultipart, UnsupportedMediaType
+from baize.exceptions import (
+    HTTPException,
+    MalformedJSON,
+    MalformedMultipart,
+    UnsupportedMediaType,
+)
 from baize.multipart_helper import parse_async_stream as parse_multipart
 from baize.requests import MoreInfoFromHeaderMixin
 from baize.typing import Receive, Scope, Send
@@ -74,8 +79,14 @@ class HTTPConnection(Mapping[str, Any], MoreInfoFromHeaderMixin):
     def url(self) -> URL:
         """
         The full URL of this request.
+
+        A `Host` header that cannot be the authority of a URL is a client
+        error: `HTTPException(400)`.
         """
-        return URL(scope=self._scope)
+        try:
+            return URL(scope=self._scope)
+        except ValueError:
+            raise HTTPException(400) from None
 
     @cached_property
     def path_params(self) -> Dict[str, Any]:
